@@ -60,6 +60,7 @@ class Ctx:
         occurs"); it is skipped in alternative scenarios that specialise input symbols to zero."""
         if self.scenario:
             if generic_only and self.scenario.startswith("zero"):
+                self.instances[rule] = self.instances.get(rule, 0) + 1      # matched, not judged in this scenario
                 return True
             instance = f"{instance} [scenario {self.scenario}]"
             if not ok:
